@@ -176,6 +176,8 @@ impl Deserializable for Kernel {
     fn read_from<R: ByteReader>(source: &mut R) -> Result<Self, DeserializationError> {
         let len = source.read_u16()?.into();
         let kernel = source.read_many::<Digest>(len)?;
-        Ok(Self(kernel))
+
+        // the bytes are untrusted: enforce the same invariants as the constructor
+        Self::new(&kernel).map_err(|err| DeserializationError::InvalidValue(format!("{err}")))
     }
 }
